@@ -54,4 +54,11 @@ structure Enumerates {σ π : Type} (next : σ → EasyMl.Outcome (Option π × 
   step : ∀ k, next (state k) = .ok (item k, state (k + 1))
   some_iff : ∀ k, (item k).isSome = true ↔ k < total
 
+/-- The source resolves the position of call `k` to the storage cell `cellOf k`, and different
+    calls resolve to different cells (so no cell is handed out twice). -/
+structure Faithful {π κ : Type} (item : Nat → Option π) (total : Nat) (cell : π → Option κ)
+    (cellOf : Nat → κ) : Prop where
+  resolves : ∀ k, k < total → ∃ p, item k = some p ∧ cell p = some (cellOf k)
+  distinct : ∀ j k, j < total → k < total → cellOf j = cellOf k → j = k
+
 end EasyMl.Spec
